@@ -70,6 +70,8 @@ def cells(tier):
                     'shape': 'mapping', 'dup': 1})
         out.append({'kind': 'rounds', 'backend': 'disk', 'n': 3, 'rounds': 2,
                     'shape': 'mapping', 'dup': 1})
+        out.append({'kind': 'rounds', 'backend': 'dict', 'n': 3, 'rounds': 2,
+                    'shape': 'sequence', 'dup': 1})
         for b in ('disk', 'redis', 'cloud'):
             out.append({'kind': 'inject', 'backend': b, 'n': 2, 'K': 40,
                         'dur': 1})
@@ -147,6 +149,10 @@ def check_attempts(relay, info):
                                if o != 'ok' and o[0] == 'temp']
                 settled.update(r for r, o in pairs
                                if o == 'ok' or o[0] == 'perm')
+                # (sequence form, address listed twice with different
+                # results: the address is still owed its other position;
+                # the multiset comparison above judges the next attempt)
+                settled.difference_update(outstanding)
             elif kind in (qc.Outcome.TRANSIENT, qc.Outcome.OTHER):
                 outstanding = list(c['rcpts'])
             else:
